@@ -46,6 +46,13 @@ structure WF (db : Db) : Prop where
   imp_trans : ∀ p q r, InAt db.importations p q → InAt db.importations q r → InAt db.importations p r
   exp_inverse : ∀ p q, InAt db.exportations p q ↔ InAt db.importations q p
 
+/-- The label facts of a database: (program, label, span) occurrences, in storage order. -/
+def labelFacts (db : Db) : List (Name × Name × PoorSpan) :=
+  db.programs.flatMap fun e => e.2.labels.flatMap fun l => l.2.map fun s => (e.1, l.1, s)
+
+def taxonFacts (db : Db) : List (Name × Name × PoorSpan) :=
+  db.programs.flatMap fun e => e.2.taxa.flatMap fun l => l.2.map fun s => (e.1, l.1, s)
+
 /-! ## Executable cross-checks -/
 
 def dedup (l : List Name) : List Name := l.foldr (fun a acc => if a ∈ acc then acc else a :: acc) []
@@ -88,7 +95,7 @@ def specDb (toTaxa : Name → List Label → List Taxon) (progs : List Prog) : O
                    labels := specPrepared (l.2.map fun x => (x.name, x.spans)),
                    taxa := specPrepared (taxa.map fun x => (x.name, x.spans)) })
       labels := specIndex (labelOcc lab)
-      taxa := specIndex (taxonOcc (lab.map fun p => (p.1, toTaxa p.1 p.2)))
+      taxa := specIndex (taxonOcc (taxaed toTaxa progs))
       importations := imps
       exportations := specExportations paths imps }
   else none
